@@ -7,6 +7,7 @@ from sympy.physics.units.systems.si import dimsys_SI
 from ..errors import UnitsError
 from ..symbols.quantities import Quantity
 from .miscellaneous import is_number, is_any_dimension, dimensionless
+from .. import verif_hooks as _verif_hooks
 
 
 def _split_numeric_and_symbolic(
@@ -190,6 +191,7 @@ _cases: dict[type, Callable[[Any], tuple[Expr, Dimension]]] = {
 }
 
 
+@_verif_hooks.traced("collect_expression")
 def collect_expression_and_dimension(expr: SupportsFloat) -> tuple[Expr, Dimension]:
     """
     Returns the simplified representation and the dimension of the given expression. Unlike
